@@ -13,6 +13,7 @@ mod util;
 mod p3;
 mod gen;
 mod c01;
+mod c02;
 mod c03;
 mod c07;
 mod c08;
@@ -47,6 +48,7 @@ macro_rules! registry {
 
 registry! {
     "C01" => c01::C01,
+    "C02" => c02::C02,
     "C03" => c03::C03,
     "C07" => c07::C07,
     "C08" => c08::C08,
